@@ -182,6 +182,23 @@ def save_read(kind, pdo_no, k, subs, dev_start, custom, wide=None):
                      "mapped object (index, sub, length, offset) read back", tag + "/map-entry")
     subscribed = any(cb == m2.on_message for cb in (net2.subscribers.get(cob) or []))
     sx.prove(bool(subscribed) == enabled, "subscribed to the COB-ID exactly when enabled", tag + "/subscribed")
+    total_bits = sum(ln for idx, sub, ln, off in entries) if entries else 0
+    sx.prove(8 * len(m2.data) >= total_bits and 8 * len(m2.data) < total_bits + 8, "frame buffer sized for the mapping",
+             tag + "/data-size")
+    # reading the same configuration once more changes nothing (the layout does not accumulate)
+    try:
+        m2.read()
+    except Exception as e:
+        sx.observe("exc", C.exc_name(e))
+        sx.fail("second read() raised %s" % C.exc_name(e), tag + "/reread-raises")
+        return
+    sx.prove(len(m2.map) == k, "number of mapped objects after a second read()", tag + "/reread-count")
+    if len(m2.map) == k:
+        for v2, (idx, sub, ln, off) in zip(m2.map, entries):
+            sx.prove((v2.index == idx) & (v2.subindex == sub) & (v2.length == ln) & (v2.offset == off),
+                     "mapped object after a second read()", tag + "/reread-entry")
+    sx.prove(8 * len(m2.data) >= total_bits and 8 * len(m2.data) < total_bits + 8,
+             "frame buffer after a second read()", tag + "/reread-data-size")
     sx.reach("read-back")
 
 
